@@ -24,7 +24,11 @@ struct Counted {
     void born() { hz::slot_add(SLOT_CTOR, 1); long l = hz::slot_add(SLOT_LIVE, 1); if (l > hz::slot_get(SLOT_MAXLIVE)) hz::slot_set(SLOT_MAXLIVE, l); }
     explicit Counted(int v) { fill(v); born(); }
     Counted(const Counted &o) { int v = o.val(); fill(v < 0 ? 0 : v); if (v < 0) w[3] ^= 1; born(); }
-    Counted(Counted &&o) noexcept { int v = o.val(); fill(v < 0 ? 0 : v); if (v < 0) w[3] ^= 1; born(); }
+    // a moved-from instance stays a valid object but reads as MOVED: code that goes on using an object somebody
+    // else moved out of (instead of copying) is visible
+    static constexpr int MOVED = 0x3ffffff0;
+    Counted(Counted &&o) noexcept { int v = o.val(); fill(v < 0 ? 0 : v); if (v < 0) w[3] ^= 1; else o.fill(MOVED); born(); }
+    Counted &operator=(Counted &&o) noexcept { int v = o.val(); fill(v < 0 ? 0 : v); if (v < 0) w[3] ^= 1; else if (&o != this) o.fill(MOVED); return *this; }
     Counted &operator=(const Counted &o) { int v = o.val(); fill(v < 0 ? 0 : v); if (v < 0) w[3] ^= 1; return *this; }
     ~Counted() {
         if (w[0] == DEAD) hz::slot_add(SLOT_BAD, 1);     // destroyed twice
